@@ -67,6 +67,18 @@ func ruleEpcCoverage(c *Ctx) {
 			out[f] = true
 		}
 		ast.Inspect(fd.Body, func(n ast.Node) bool {
+			// lazy-initialisation guards (`if recv.F == nil { recv.Load...() }`) do not run in steady state
+			if ifs, ok := n.(*ast.IfStmt); ok {
+				if be, ok := ast.Unparen(ifs.Cond).(*ast.BinaryExpr); ok && be.Op == token.EQL {
+					if id, ok := ast.Unparen(be.Y).(*ast.Ident); ok && id.Name == "nil" {
+						if sel, ok := ast.Unparen(be.X).(*ast.SelectorExpr); ok {
+							if rid, ok := ast.Unparen(sel.X).(*ast.Ident); ok && info.Uses[rid] == recv {
+								return false
+							}
+						}
+					}
+				}
+			}
 			if call, ok := n.(*ast.CallExpr); ok {
 				if sel, ok := call.Fun.(*ast.SelectorExpr); ok {
 					if id, ok := ast.Unparen(sel.X).(*ast.Ident); ok && info.Uses[id] == recv {
